@@ -410,6 +410,7 @@ CAPS = {
     'h_subsuper': ({'P': 2, 'S1': 2, 'S2': 2}, {'P': 3, 'S1': 2, 'S2': 2}),
     'i_two_single_refs': ({'A': 2, 'B': 1, 'C': 2}, {'A': 2, 'B': 2, 'C': 3}),
     'j_compound_key': ({'A': 2, 'B': 2}, {'A': 2, 'B': 3}),
+    'k_1_1': ({'A': 2, 'B': 2}, {'A': 2, 'B': 3}),
 }
 
 
@@ -424,7 +425,7 @@ CAPS_LOPSIDED = {
 
 def models(ctx):
     out = []
-    for schema in schemas.shapes() + schemas.extra_shapes():
+    for schema in schemas.shapes() + [x for x in schemas.extra_shapes() if x.name in CAPS]:
         caps = CAPS[schema.name][0 if ctx.quick else 1]
         out.append(CappedModel(schema, max(caps.values()), caps))
         if ctx.quick and schema.name in CAPS_LOPSIDED:
